@@ -14,6 +14,7 @@
 -/
 import SqlglotModel.Proofs.Cursor
 import SqlglotModel.Proofs.ScanProgress
+import SqlglotModel.Proofs.FindParser
 import SqlglotModel.Generated.C05
 
 namespace SqlglotModel.Properties.C05
@@ -300,6 +301,54 @@ theorem parser_forward_lookaheads_guarded :
       (SqlglotModel.Generated.C05.forwardLookaheadSites.map (·.1)).eraseDups =
         ["parser._advance", "parser._can_parse_named_window", "teradata._parse_function"] := by
   decide +kernel
+
+/-! ## `_find_parser`: the trie key function and the dict key function agree -/
+
+namespace Find
+open SqlglotModel.FindParser
+
+/-- `" ".join(s.split(" ")) == s` for every text (any separator character) -/
+theorem split_join_round_trip (sep : Char) (s : Str) : joinWith sep (splitOn sep s) = s := join_split sep s
+
+/-- the two key functions agree on every list of token texts: joining the words the trie was walked with gives exactly
+    the string the dict is indexed with -/
+theorem find_parser_keys_agree (this : List Str) :
+    joinWith ' ' (this.flatMap (splitOn ' ')) = joinWith ' ' this := join_flatMap_split ' ' this
+
+/-- hence `_find_parser` never leaks KeyError: for every dict (its trie built with `key.split(" ")`), every list of token
+    texts (quoted identifiers with leading / trailing / repeated blanks, tabs, newlines included) an EXISTS answer of the
+    trie names a key the dict has -/
+theorem find_parser_no_key_error (keys : List Str) (toks : List Str) (k : Str) :
+    findParser (splitOn ' ') keys toks ≠ .keyError k := by
+  unfold findParser
+  cases toks with
+  | nil => simp
+  | cons t ts => exact walk_no_keyError keys (t :: ts) [] [] rfl k
+
+example : findParser (splitOn ' ') ["GLOBAL".toList, "TERSE TABLES".toList] ["TERSE TABLES".toList]
+    = .found "TERSE TABLES".toList := by decide +kernel
+example : findParser (splitOn ' ') ["GLOBAL".toList, "TERSE TABLES".toList] ["TERSE".toList, "TABLES".toList]
+    = .found "TERSE TABLES".toList := by decide +kernel
+example : findParser (splitOn ' ') ["GLOBAL".toList] ["GLOBAL ".toList, "X".toList] = .notFound := by decide +kernel
+
+/-- the agreement is needed: with `str.split()` as the trie key function (whitespace-normalising) a quoted token
+    `"GLOBAL "` or `TERSE  TABLES` walks the trie to EXISTS while the dict is asked for the raw text -/
+theorem find_parser_whitespace_split_key_error :
+    findParser splitWs ["GLOBAL".toList] ["GLOBAL ".toList, "X".toList] = .keyError "GLOBAL ".toList ∧
+    findParser splitWs ["TERSE TABLES".toList] ["TERSE  TABLES".toList] = .keyError "TERSE  TABLES".toList ∧
+    findParser splitWs ["GLOBAL".toList] ["\tGLOBAL".toList] = .keyError "\tGLOBAL".toList := by
+  decide +kernel
+
+/-- the key functions as the source has them on this run (ast): `_find_parser` walks the trie with `curr.split(' ')`,
+    indexes the dict with `' '.join(this)`, and every SHOW_TRIE / SET_TRIE is built with `key.split(' ')` -/
+theorem find_parser_key_functions_known :
+    SqlglotModel.Generated.C05.findParserTrieKey = "curr.split(' ')" ∧
+    SqlglotModel.Generated.C05.findParserDictKey = "' '.join(this)" ∧
+    SqlglotModel.Generated.C05.trieBuilds.all (fun b => b.2 == "key.split(' ')") = true ∧
+    SqlglotModel.Generated.C05.trieBuilds.length ≥ 2 := by
+  decide +kernel
+
+end Find
 
 /-! ## tokenizer: `_scan` makes progress although sub-scanners rewind -/
 
